@@ -1,7 +1,7 @@
 (* Properties_C08.v — C08: key switching preserves the phase up to a bounded, unbiased rounding error
    plus the noise of the rows actually used. *)
 From Coq Require Import ZArith List Lia.
-From TV Require Import Base.Int32 Base.Sums Model.Lwe Model.KeySwitch Proofs.Digits Proofs.Lwe Proofs.KeySwitch.
+From TV Require Import Base.Int32 Base.Sums Model.Lwe Model.KeySwitch Proofs.Digits Proofs.Lwe Proofs.KeySwitch Model.Gates Model.Encrypt Proofs.KsGen.
 Import ListNotations.
 Local Open Scope Z_scope.
 
@@ -38,6 +38,20 @@ Theorem C08_index_in_range : forall n t base i j h, (i < n)%nat -> (j < t)%nat -
   0 <= ks_index (Z.of_nat t) base i j h < Z.of_nat n * Z.of_nat t * base.
 Proof. exact ks_index_in_range. Qed.
 Print Assumptions C08_index_in_range.
+
+(* the hypothesis of C08_phase_relation holds for the key-switching key lweCreateKeySwitchKey generates from its draw stream (C07):
+   every row (i,j,h>=1) sits at its three-level index, has the output dimension, and its phase is its message plus one of the
+   recentred noises, hence an error of at most eta when those are *)
+Theorem C08_generated_key_rows_ok : forall in_key out_key t b ds rows r eta, valid_ks t b ->
+  create_ks_key in_key out_key t b ds = Some (rows, r) -> 0 <= eta ->
+  (forall gs r0, take_g (length in_key * t * (Z.to_nat (pow2 b) - 1)) ds = Some (gs, r0) -> forall nz, In nz (recentre gs) -> Z.abs (dtot32_dy nz) <= eta) ->
+  exists e : nat -> nat -> Z -> Z,
+    (forall i j h, (i < length in_key)%nat -> (j < t)%nat -> 1 <= h < pow2 b ->
+       exists row, ks_get rows (Z.of_nat t) (pow2 b) i j h = Some row /\ length (fst row) = length out_key /\
+                   eqm32 (lwe_phase out_key row) (h * nth i in_key 0 * pow2 (shp 32 b j) + e i j h)) /\
+    (forall i j h, Z.abs (e i j h) <= eta).
+Proof. exact generated_ks_rows_ok. Qed.
+Print Assumptions C08_generated_key_rows_ok.
 
 Example C08_nonvacuous : valid_ks 8 2 /\ valid_ks 1 31 /\ valid_ks 31 1 /\ valid_ks 3 10 /\
   round_tb 8 2 (-1) = 0 /\ round_tb 8 2 32767 = 0 /\ round_tb 8 2 32768 = 65536 /\
